@@ -128,10 +128,13 @@ def asciiText (b : Bytes) : Str := b.map fun x => Char.ofNat x.toNat
 def basicHeader (scheme sep : Str) (user password : Str) : Str :=
   scheme ++ sep ++ asciiText (Crypto.b64encode (utf8Enc (user ++ ':' :: password)))
 
-/-- `', '.join(ips)` -/
-def joinComma : List Str → Str
+/-- `(',' + sp).join(ips)`: how proxies append to `X-Forwarded-For` (`sp` = the white space after the comma) -/
+def joinCommaSp (sp : Str) : List Str → Str
   | [] => []
   | [a] => a
-  | a :: b :: r => a ++ ',' :: ' ' :: joinComma (b :: r)
+  | a :: b :: r => a ++ ',' :: (sp ++ joinCommaSp sp (b :: r))
+
+/-- `', '.join(ips)` -/
+def joinComma (ips : List Str) : Str := joinCommaSp [' '] ips
 
 end Ombott.ReqProps
